@@ -11,6 +11,7 @@ import math
 import numpy as np
 
 from ..core import import_library
+from ..env import ENVIRONMENTS, Held, excusable, hostile, observe
 from ..probe import Probe, Reach, plain_function
 
 WORKERS = {"quick": 1, "thorough": 16}
@@ -267,6 +268,7 @@ def run(ctx):
     Scripted = make_scripted(fl)
     OV = fl.OutputVariable
     funcs = {"OutputVariable.defuzzify": OV.defuzzify, "OutputVariable.clear": OV.clear, "Variable.value.setter": plain_function(fl.Variable, "value")}
+    ctx.excuse = lambda mechanism, observed, note: excusable(observed)
     with Reach(funcs) as reach, Probe() as probe:
         mon = CascadeMonitor(ctx, fl)
         mon.install(probe, extra_classes=[Scripted])
@@ -323,11 +325,19 @@ def run(ctx):
             default = cfg[1] if math.isnan(cfg[1]) else rnd.choice([lo + 0.25 * (hi - lo), hi + 1.5, lo - 0.5, lo, hi, math.inf, -math.inf])
             if math.isinf(default):
                 ctx.hit("default:infinite")
-            shape = rnd.choice(["finite", "finite", "left-open", "right-open", "unbounded"])
+            shape = rnd.choice(["finite", "finite", "left-open", "right-open", "unbounded", "mixed magnitudes"])
             if shape in ("left-open", "unbounded"):
                 lo = -math.inf
             if shape in ("right-open", "unbounded"):
                 hi = math.inf
+            if shape == "mixed magnitudes":
+                # a finite range whose bounds differ by many orders of magnitude (timestamps, counters): values just outside the
+                # small bound are still outside
+                lo, hi = rnd.choice([(0.0, 1e17), (0.0, 2e18), (-1.0, 4e18), (-1e19, 2.5), (0.0, 1e300), (-1e300, 0.5), (1e-9, 1e12)])
+                if rnd.random() < 0.7:
+                    cfg = (cfg[0], cfg[1], True)
+                if not math.isnan(cfg[1]):
+                    default = rnd.choice([lo - 42.0 if abs(lo) < 1e9 else hi + 42.0, default])
             ctx.hit(f"range:{shape}")
             d = Scripted()
             d.keep = rnd.random() < 0.3  # a defuzzifier that keeps the array it returned and returns the same object again
@@ -364,6 +374,8 @@ def run(ctx):
                     n = rnd.choice([1, 1, 2, 3, 5, 12])
                     flo, fhi = (lo if math.isfinite(lo) else -3.0), (hi if math.isfinite(hi) else 3.0)
                     chunk = [rnd.choice([nan, nan, rnd.uniform(flo, fhi), flo - rnd.random(), fhi + rnd.random(), flo, fhi, math.inf, -math.inf]) for _ in range(n)]
+                    if shape == "mixed magnitudes" and rnd.random() < 0.6:
+                        chunk = [rnd.choice([flo - 3.0 if abs(flo) < 1e9 else fhi + 3.0, flo - rnd.random() if abs(flo) < 1e9 else fhi + rnd.random(), 0.5 * (flo + fhi), flo, fhi]) for _ in range(n)]
                     d.queue = [chunk_value(chunk, rnd.choice(FORMS))]
                     hist.append(chunk)
                 try:
@@ -425,6 +437,7 @@ def run(ctx):
         reach.report(ctx)
     ctx.exhaustive = True
     ctx.extra["exhaustive_space"] = f"4^n sequences (n<=3 fully, n<={L} with sampled forms/faults) x 2^(n-1) splits x 12 settings x 4 result forms x failure at each call x clear"
+    ctx.require("range:mixed magnitudes", "event:observer between steps", *[f"environment:{e}" for e in ENVIRONMENTS])
     ctx.require("event:Engine.process observed", "event:processed with an empty fuzzy output", "event:variable edited between defuzzifications", "event:two variables given the same array as value", "workload:large batch")
     ctx.require("hook:OutputVariable.defuzzify", "hook:OutputVariable.clear", "event:defuzzified:batch", "event:defuzzified:scalar", "event:defuzzifier_raised", "event:disabled", "event:clear", "piece:clipped", "piece:kept", "range:left-open", "range:right-open", "range:unbounded", "default:infinite", "law:defuzzifier result left untouched")
     for lp in (0, 1):
@@ -461,10 +474,15 @@ def real_engines(ctx, fl):
             rb.enabled = rnd.random() > 0.3  # with the block off nothing is activated: the fuzzy output is empty
             if not rb.enabled:
                 ctx.hit("event:processed with an empty fuzzy output")
-            try:
-                engine.process()
-            except Exception:
-                pass  # judged by the monitor
+            envname = ENVIRONMENTS[(i + step) % len(ENVIRONMENTS)] if (i + step) % 4 == 0 else None
+            with hostile(fl, envname, ctx):
+                try:
+                    engine.process()
+                except Exception:
+                    pass  # judged by the monitor
+            # the engine is looked at between two steps: what its output variables hold (value, previous value, fuzzy output)
+            # is not something a look may change
+            observe(fl, engine, rnd, ctx, None, k=2)
             if step == 3 and rnd.random() < 0.5:
                 engine.restart()
         ctx.hit(f"engine_kind:{kind}")
